@@ -672,6 +672,28 @@ def run(ck):
             for _ in range(rng.range(1, 4)):
                 new = edit(rng, new)
             pairs.append((base, new))
+    # prefix families ("staircases"): k sibling calls whose cell lists are prefixes (or suffixes) of ONE cell sequence, each losing / gaining
+    # its last few cells in the same reload.  Many identical pairs compete with the alignment that carries the most cells, so the bonuses of
+    # identical pairs add up (response to seeded change C08c: score 2*cells + bonus lets three identical pairs outweigh a carried cell).
+    rng = ck.rng.fork("staircase")
+    n_stair = 0
+    for i in range(1200 if ck.tier == "quick" else 12000):
+        L = rng.range(3, 7)
+        seq = [rand_leaf(rng, True) for _ in range(L)] if rng.chance(1, 2) else [rng.choice(SITE_ALPHABET) for _ in range(L)]
+        k = rng.range(3, 6)
+        lens = sorted({rng.range(2, L) for _ in range(k)} | {L}, reverse=rng.chance(3, 4))
+        fam = [seq[:n] if rng.chance(3, 4) else seq[L - n:] for n in lens]
+        cut = rng.range(1, 2)
+        shorter = [f[:max(1, len(f) - cut)] if rng.chance(4, 5) else f for f in fam]
+        extra = [rand_site(rng)] if rng.chance(1, 4) else []
+        big = ('C', [('C', list(f)) for f in fam] + extra)
+        small = ('C', [('C', list(f)) for f in shorter] + extra)
+        if rng.chance(1, 2):
+            pairs.append((big, small)); n_del += 1
+        else:
+            pairs.append((small, big)); n_ins += 1
+        n_stair += 1
+    ck.coverage["staircase_pairs"] = n_stair
     # mixed edits: ONE edit removes some subtrees AND adds others (also nested), and rows of call sites with one site removed and another
     # added elsewhere (the C07 "delins" shape).  The generator's script is kept: the identity clause is judged against it.  A third of
     # the scripts are unambiguous by construction (added sites built from cells that occur nowhere else).
